@@ -2,8 +2,10 @@
 """tools/seedsave.py <PROP> <A|B> <caught:yes|no|after-strengthening> "<needs>" — store a confirmed seeded change under /verif/seeded/."""
 import sys, os, shutil, json, re
 P, X, caught, needs = sys.argv[1:5]
-src = f"/tmp/seed-out/{P}/{X}"
-dst = f"/verif/seeded/{P}-{X}"
+import os as _os
+R2 = _os.environ.get("ROUND", "1") == "2"
+src = f"/tmp/seed-out/{P}-r2/{X}" if R2 else f"/tmp/seed-out/{P}/{X}"
+dst = f"/verif/seeded/{P}-r2-{X}" if R2 else f"/verif/seeded/{P}-{X}"
 os.makedirs(dst, exist_ok=True)
 shutil.copy(f"{src}/patch.diff", f"{dst}/patch.diff")
 if os.path.isdir(f"{dst}/demo"):
